@@ -294,3 +294,47 @@ func VerifC13StaleIdentifier() {
 	w.CheckEventGrammar()
 	verifReach("done")
 }
+
+// the same for an INTERNAL extension (registered from inside the runtime process)
+func VerifC13ExitWhileParkedInternal() {
+	f := newVerifFull(0, nil, nil, 3000)
+	parkedStatus := 0
+	exitReported, gaveUp := false, false
+	f.w.SetRuntimeScript(func(k int, rapi *rapid.VerifRuntimeAPI) bool {
+		if k != 0 {
+			return false
+		}
+		api := rapi.InternalExtAPI("internal0")
+		verifSpawnEnv(func() {
+			defer func() { gaveUp = true }()
+			st, id, _ := api.Register("internal0", []string{"INVOKE"})
+			if st != 200 {
+				return
+			}
+			st1, _ := api.Next(id) // first event
+			if st1 != 200 || rapi.Dead() {
+				return
+			}
+			verifSpawnEnv(func() { // second connection: parks in next
+				s, _ := api.Next(id)
+				parkedStatus = s
+			})
+			verifWaitUntil(func() bool {
+				return f.w.Count("caller", "invoke-end", "") >= 1 && f.w.Count("internal:internal0", "next-issued", "") >= 2
+			})
+			st2, _ := api.ExitError(id, "Extension.Bye")
+			verifAssert(st2 == 202, "exit/error is accepted while another request is parked in next (internal)")
+			exitReported = true
+			verifReach("exit-reported")
+		})
+		return false // the runtime itself is healthy
+	})
+	f.invoke()
+	verifWaitUntil(func() bool { return exitReported || gaveUp })
+	f.invoke()
+	verifSettle()
+	if parkedStatus != 0 {
+		verifReach("parked-next-answered")
+		verifAssert(parkedStatus == 403, "a next parked before the exit/error report is refused once released, the report is final (internal)")
+	}
+}
